@@ -658,3 +658,30 @@ add('C08.f13', 'C08', (TIG, "          if consumer_id in producer_trans_rule.con
     'C08.R6', 'defect F13 returns: concat([x, x, z]) rejected under the static-range recipes', control=True)
 add('C04.tanh_symmetry_from_zero_point', 'C04', ('algorithms/utils/min_max_quantize_utils.py', "  if symmetric:\n    float_min = -float_max\n  return (float_min, float_max)", "  if not np.any(tensor_params.zero_point):\n    float_min = -float_max\n  return (float_min, float_max)"),
     'C04.R10', 'symmetry inferred from a zero zero point: TANH int8 asymmetric gets a range that does not give back 1/128 (seeded b5-C08)')
+add('C12.hidden_priority', 'C12', (RM, "          result_config = selected_recipe.op_config\n          result_key = selected_recipe.algorithm_key\n",
+    "          if id(selected_recipe) >= getattr(self, '_best', 0):\n            self._best = id(selected_recipe)\n            result_config = selected_recipe.op_config\n            result_key = selected_recipe.algorithm_key\n"),
+    ('C12.R7', 'C11.R1', 'C11.R3'), 'resolution depends on state that is not exported', allow_error=True)
+add('C12.export_reversed', 'C12', (RM, "    for _, scope_config in self._scope_configs.items():\n      for quant_config in scope_config:\n        config = dict()",
+    "    for _, scope_config in reversed(list(self._scope_configs.items())):\n      for quant_config in scope_config:\n        config = dict()"),
+    'C12.R7', 'scopes exported in reverse order: a reloaded recipe resolves overlapping scopes the other way round')
+add('C19.producer_model_wide', 'C19', (TIGF, "      producer = -1\n      for op_id, op in enumerate(subgraph.operators):\n        if tensor_id in op.outputs:\n          producer = op_id\n          break",
+    "      producer = -1\n      for other in self.flatbuffer_model.subgraphs:\n        for op_id, op in enumerate(other.operators):\n          if tensor_id in op.outputs and producer == -1:\n            producer = op_id"),
+    'C19.R1', 'producer looked up across all subgraphs by the local tensor index (seeded b6-C19)')
+
+add('C14.keys_minus_set', 'C14', ('model_modifier.py', "    original_outputs = [\n        list(subgraph.outputs) for subgraph in quantized_model.subgraphs\n    ]",
+    "    skipped = {name for name, insts in instructions.items() if not insts.instructions}\n    instructions = {name: instructions[name] for name in instructions.keys() - skipped}\n    original_outputs = [\n        list(subgraph.outputs) for subgraph in quantized_model.subgraphs\n    ]"),
+    'C14.R4', 'plan rebuilt by iterating `keys() - set`: transformations applied in string-hash order (seeded b6-C14)', control=True)
+add('C14.twin_keys_filter_in_order', 'C14', ('model_modifier.py', "    original_outputs = [\n        list(subgraph.outputs) for subgraph in quantized_model.subgraphs\n    ]",
+    "    skipped = {name for name, insts in instructions.items() if not insts.instructions}\n    instructions = {name: insts for name, insts in instructions.items() if name not in skipped}\n    original_outputs = [\n        list(subgraph.outputs) for subgraph in quantized_model.subgraphs\n    ]"),
+    (), 'the same filter written over items() in dict order with a membership test', kind='twin')
+UQT = 'algorithms/uniform_quantize/uniform_quantize_tensor.py'
+add('C17.cast_before_clip_table', 'C17', (UQT, "  ret = _round_and_clip(ret, qtype, narrow_range)\n  ret = assign_quantized_type(ret, qtype)\n  return ret\n\n\ndef uniform_dequantize(",
+    "  ret = np.rint(ret).astype(np.int32)\n  ret = _round_and_clip(ret, qtype, narrow_range)\n  ret = assign_quantized_type(ret, qtype)\n  return ret\n\n\ndef uniform_dequantize("),
+    ('C17.R11', 'C17.R1'), 'rounded value cast to an int32 accumulator before the clamp (seeded b6-C17)')
+add('C17.narrow_dropped', 'C17', (UQT, "  narrow_range = quantization_params.symmetric\n  required_dtype = np.signedinteger if qtype.signed else np.unsignedinteger\n  if not np.issubdtype(zero_points.dtype, required_dtype):\n    raise ValueError(\n        f\"zero_points need to be {required_dtype}.\"\n        f\" But the actual type is {zero_points.dtype}.\"\n    )\n  ret = np.multiply(tensor_data, inverse_scales) + zero_points",
+     "  narrow_range = False\n  required_dtype = np.signedinteger if qtype.signed else np.unsignedinteger\n  if not np.issubdtype(zero_points.dtype, required_dtype):\n    raise ValueError(\n        f\"zero_points need to be {required_dtype}.\"\n        f\" But the actual type is {zero_points.dtype}.\"\n    )\n  ret = np.multiply(tensor_data, inverse_scales) + zero_points"),
+    ('C17.R11', 'C17.R7'), 'symmetric quantization uses the full range (-128 reachable)')
+add('C17.sym_zero_point_offset', 'C17', (UQT, "      zp = np.zeros_like(scale, dtype=np.int32)\n", "      zp = np.ones_like(scale, dtype=np.int32)\n"),
+    ('C17.R12', 'C17.R2'), 'symmetric zero point is 1')
+add('C17.asym_no_zero_extension', 'C17', (UQT, "    bound_max = np.maximum(max_value, np.zeros_like(max_value))\n", "    bound_max = max_value\n"),
+    ('C17.R12', 'C17.R2'), 'all-negative ranges are not extended to include zero: zero point leaves the integer range')
